@@ -6,7 +6,7 @@ CONSTANTS
   NegAttempts = 10
   MaxLoss = 40
   MaxNegLoss = 12
-  MaxRestarts = 2
+  MaxRestarts = 1
   PeerModes <- ModesAll
   DenyReplies <- DenyMany
   AckTails <- TailsBoth
